@@ -30,10 +30,10 @@ def run(tier, seed):
         f.write("SPECIFICATION Spec\nCHECK_DEADLOCK FALSE\n")
     cp = os.path.join(wd, "cases.ndjson")
     if tier == "quick":
-        args = ["--cases", 500, "--big", 8, "--merges", 150]
+        args = ["--cases", 500, "--big", 8, "--merges", 150, "--joins", 150, "--bigjoins", 30]
         nchunks = 6
     else:
-        args = ["--cases", 8000, "--big", 60, "--merges", 3000]
+        args = ["--cases", 8000, "--big", 60, "--merges", 3000, "--joins", 3000, "--bigjoins", 300]
         nchunks = 14
     V.gv(["exec", "--seed", seed, "--out", cp, "--dir", os.path.join(wd, "spill")] + args, timeout=3000)
     cases = V.read_ndjson(cp)
@@ -55,13 +55,19 @@ def run(tier, seed):
                 if c["k"] == "pipeline":
                     stateful = [o["op"] for o in c["ops"] if o["op"] in ("sort", "agg", "distinct", "limit", "skip", "skiplimit")]
                     key = "pipeline: " + ", ".join(sorted({n.split("/")[0] for n in names})) + " differ from the sequential meaning (" + ("+".join(stateful) or "stateless") + f", column-1 type {c.get('tmode', 0)})"
+                elif c["k"] == "join":
+                    key = f"{c['type']} join: " + ", ".join(sorted({n.split("/")[0] for n in names})) + " differs from JoinDef or between chunkings of its inputs" + (" (output > 2048 rows)" if c["big"] else "")
                 else:
                     key = "merge helper: " + ", ".join(sorted(names))
                 bad[key].append((c, names))
     for key, lst in sorted(bad.items()):
-        lst.sort(key=lambda x: (x[0].get("nrows", len(x[0].get("rows", []))), len(json.dumps(x[0].get("ops", [])))))
+        lst.sort(key=lambda x: (x[0].get("nrows", len(x[0].get("rows", x[0].get("L", [])))), len(json.dumps(x[0].get("ops", [])))))
         c, names = lst[0]
         small = dict(c)
+        if c["k"] == "join":
+            small["runs"] = [{**r, "codes": r["codes"][:50]} for r in c["runs"] if r["name"] in names][:3] + [{**r, "codes": r["codes"][:50]} for r in c["runs"] if r["name"] not in names][:1]
+            if c["big"]:
+                small["L"] = c["L"][:20] + ["..."]
         if c["k"] == "pipeline":
             small["runs"] = [r for r in c["runs"] if r["name"] in names][:3] + [r for r in c["runs"] if r["name"] not in names][:1]
         rep.violation(f"{key}: {len(lst)} cases, smallest cid={c['cid']} ops={json.dumps(c.get('ops'))[:300]}", {"case": small, "failing_runs": names, "count": len(lst), "seed": seed})
@@ -72,7 +78,10 @@ def run(tier, seed):
     tm = collections.Counter(c.get("tmode", 0) for c in pipes)
     distinct = len({json.dumps([c.get("rows"), c.get("ops")]) for c in pipes})
     samples = [{"ops": c["ops"], "nrows": c["nrows"], "modes": [r["name"] for r in c["runs"]][:24], "result_rows": len(c["runs"][0]["rows"])} for c in pipes[::max(1, len(pipes) // 5)]][:5]
-    rep.add(evaluations=runs + sum(9 for c in cases if c["k"] == "merge"), distinct_nontrivial=distinct, samples=samples,
+    joins = [c for c in cases if c["k"] == "join"]
+    rep.add(join_cases=len(joins), join_runs=sum(len(c["runs"]) for c in joins), big_join_cases=sum(1 for c in joins if c["big"]),
+            join_types=dict(collections.Counter(c["type"] for c in joins)))
+    rep.add(evaluations=runs + sum(len(c["runs"]) for c in joins) + sum(9 for c in cases if c["k"] == "merge"), distinct_nontrivial=distinct, samples=samples,
             pipeline_cases=len(pipes), big_cases=sum(1 for c in pipes if c["big"]), merge_cases=sum(1 for c in cases if c["k"] == "merge"),
             runs_by_mode=dict(kinds), operators_used=dict(opsc), column1_types={str(k): v for k, v in tm.items()}, exhaustive=False,
             rule="evaluations = recorded runs (one pipeline x one execution mode) + 9 judged parts per merge case; distinct = distinct (table, pipeline) pairs. "
@@ -83,7 +92,8 @@ def run(tier, seed):
     rep.assumptions += ["numbers are compared by value (push SUM returns a float where pull returns an integer); aggregation results are compared as bags (group order is unspecified), parallel results as bags",
                         "thread schedules of the parallel workers are whatever the OS gives (the runs are repeated over worker counts and seeds, not enumerated); the work-stealing scheduler itself is not modelled",
                         "ORDER BY on value types no sort implementation orders (timestamps, lists, ...) is excluded; the sort of equal keys is made total by a unique last key",
-                        "adaptive.rs (cardinality feedback), join operators under spilling, async spill files and ParallelNodeScanSource / triple sources are not covered"]
+                        "joins: hash join (inner / left / right / full / semi / anti) and nested-loop join (inner / left / cross) on one equality key under 7 chunkings of both inputs, judged against JoinDef (ExecSem.tla) and for agreement between chunkings; outputs beyond one 2048-row chunk for agreement only; the join operators have no spilling variant in the tree",
+                        "adaptive.rs (cardinality feedback), async spill files and ParallelNodeScanSource / triple sources are not covered"]
     return rep.finish()
 
 
